@@ -68,12 +68,12 @@ class Sched:
         """inside an environment call: maybe inject the cancel, maybe start queued tasks nested on top"""
         idx = self.points
         self.points += 1
-        if self.cancel_fn is not None and self.cancelled_at_point is None and idx == self.cancel_at:
-            self.cancelled_at_point = idx
-            self.labels.append(('cancel', label))
-            self.cancel_fn()
-        self.suspended_env += 1
+        self.suspended_env += 1      # the caller is suspended inside an environment call from here on
         try:
+            if self.cancel_fn is not None and self.cancelled_at_point is None and idx == self.cancel_at:
+                self.cancelled_at_point = idx
+                self.labels.append(('cancel', label))
+                self.cancel_fn()
             for (p, k) in self.nest:
                 if p == idx:
                     r = self.runnable()
